@@ -503,3 +503,119 @@ class TotalStack(_Totality, EvaluateCircuit):
 def add_c15(rep, pv, it):
     pv.start_child(TotalFull, _prepare)
     pv.start_child(lambda: TotalStack(), _prepare)
+    pv.start_child(lambda: SoundFull(), _prepare)
+
+
+# =====================================================================================================================
+# C15, first clause at circuit level: evaluation under a PARTIAL assignment is sound. For an arbitrary partial assignment
+# (inputs may be missing or Undefined) and an arbitrary COMPLETION compl of it, every value returned by
+# evaluate_full_circuit is Undefined or equals den under the completion:   result(g) = U  or  result(g) = den_compl(g).
+# Loop 2 (over top_sort by its contract) by the invariant "keys = initial keys + gates yielded so far; the yielded
+# gates and the inputs hold U or den_compl"; n-ary operators by the fold invariant "acc = U or acc = the Boolean fold".
+# =====================================================================================================================
+def below(v, b):
+    """v ⊑ state_of_bool(b) in the information order"""
+    return z3.Or(v == ST_U, v == theory.state_of_bool(b))
+
+
+class TopSortLoopSound:
+    def __init__(self, h, amap_of, spec):
+        self.h, self.amap_of, self.spec = h, amap_of, spec
+        self.base = None
+
+    def applies(self, it, env, iterable):
+        return isinstance(iterable, YieldSeq)
+
+    def _setup(self, it, env):
+        if self.base is None:
+            am = self.amap_of(env)
+            self.base = (am.dom, am.val)
+
+    def havoc(self, it, env):
+        self._setup(it, env)
+        Ghostn[0] += 1
+        d = z3.Function(f'amds!{Ghostn[0]}', LabelSort, B)
+        v = z3.Function(f'amvs!{Ghostn[0]}', LabelSort, StateSort)
+        am = self.amap_of(env)
+        am.dom, am.val = (lambda x: d(x)), (lambda x: v(x))
+
+    def _f(self, it, env, k, l):
+        self._setup(it, env)
+        d1, v1 = self.base
+        S0, pos, D = self.h.S, self.spec['pos'], self.spec['D']
+        am = self.amap_of(env)
+        done = z3.And(S0.dom(l), S0.typ(l) != GT['INPUT'], pos(l) < k)
+        return [('keys', am.dom(l) == z3.Or(d1(l), done)),
+                ('untouched-keys-keep-their-values', z3.Implies(z3.And(d1(l), z3.Not(done)), am.val(l) == v1(l))),
+                ('evaluated-gates-sound', z3.Implies(done, below(am.val(l), D(l))))]
+
+    def inv(self, it, env, k):
+        return self._f(it, env, k, it.ctx.fresh(LabelSort, 'ls'))
+
+    def inv_assume(self, it, env, k):
+        l = z3.Const('l!tss', LabelSort)
+        return [(nm, z3.ForAll([l], f)) for nm, f in self._f(it, env, k, l)]
+
+
+class SoundFull(EvaluateFull):
+    name = 'evaluate_full_circuit/partial-assignment-sound'
+
+    def setup(self, it, ctx):
+        c, h = CM.make_circuit(it, ctx, tag='c')
+        S0 = h.S
+        l = z3.Const('L!ar', LabelSort)
+        ctx.assume(z3.ForAll([l], z3.Implies(S0.dom(l), arity_pre(S0, l))))          # ARITY (W6)
+        ctx.assume(z3.ForAll([l], S0.rank(l) >= 0))
+        # an ARBITRARY partial assignment: any keys (inputs or labels that are not gates), any values
+        ad = z3.Function('adom', LabelSort, B)
+        av = z3.Function('aval', LabelSort, StateSort)
+        ctx.assume(z3.ForAll([l], z3.Implies(ad(l), z3.Or(S0.in_cnt(l) > 0, z3.Not(S0.dom(l))))))
+        am = AssignMap(lambda x: ad(x), lambda x: av(x))
+        # an arbitrary completion: agrees with the assignment wherever that is Boolean
+        compl = z3.Function('completion', LabelSort, B)
+        ctx.assume(z3.ForAll([l], z3.Implies(z3.And(S0.in_cnt(l) > 0, ad(l), av(l) != ST_U), compl(l) == (av(l) == ST_T))))
+        spec = den_spec(ctx, S0, lambda x: compl(x), tag='Dc')
+        pos = z3.Function('pos', LabelSort, I)
+        y = z3.Function('yield', I, LabelSort)
+        i = z3.Int('i!ts')
+        n = S0.size
+        ctx.assume(z3.ForAll([i], z3.Implies(z3.And(i >= 0, i < n), z3.And(S0.dom(y(i)), pos(y(i)) == i))))
+        ctx.assume(z3.ForAll([l], z3.Implies(S0.dom(l), z3.And(pos(l) >= 0, pos(l) < n, y(pos(l)) == l))))
+        ctx.assume(z3.ForAll([l, i], z3.Implies(z3.And(S0.dom(l), i >= 0, i < S0.nops(l)), pos(S0.op(l, i)) < pos(l))))
+        spec['pos'] = pos
+        st = {'h': h, 'S0': S0, 'am': am, 'spec': spec, 'ad': ad, 'av': av}
+
+        def top_sort(it_, fv, args, kwargs):
+            if not kwargs.get('inverse'):
+                raise Unsupported('top_sort(inverse=False) has no contract here')
+            ys = YieldSeq(h, lambda j: y(j), n)
+            ys.it = it_
+            return ys
+        it.contracts[CIRC + '::Circuit.top_sort'] = top_sort
+        find = lambda env: env['assignment_dict']
+        it.loop_specs[(CIRC + '::Circuit.evaluate_full_circuit', 1)] = InputsLoop(h, find)
+        it.loop_specs[(CIRC + '::Circuit.evaluate_full_circuit', 2)] = TopSortLoopSound(h, find, spec)
+
+        def fold_for(seq, owner):
+            def inv(it_, acc, k):
+                t = S0.typ(owner)
+                cases = []
+                for base in ('AND', 'OR', 'XOR'):
+                    neg = {'AND': 'NAND', 'OR': 'NOR', 'XOR': 'NXOR'}[base]
+                    cases.append(z3.Implies(z3.Or(t == GT[base], t == GT[neg]), below(it_.state_term(acc), spec['folds'][base](owner, k))))
+                return [('acc-below-the-boolean-fold', z3.And(cases))]
+            seq.fold_inv = inv
+            seq.fold_havoc = lambda it_: Sym(it_.ctx.fresh(StateSort, 'acc'))
+        it.fold_for = fold_for
+        return [c, am], {}, st
+
+    def post(self, it, ctx, result, st):
+        it.fold_for = None
+        S0, D = st['S0'], st['spec']['D']
+        if not isinstance(result, AssignMap):
+            yield ('returns-the-assignment-dict', z3.BoolVal(False))
+            return
+        l = ctx.fresh(LabelSort, 'lres')
+        yield ('every-gate-has-a-value', z3.Implies(S0.dom(l), result.dom(l)))
+        yield ('every-value-is-undefined-or-den-of-the-completion', z3.Implies(S0.dom(l), below(result.val(l), D(l))), {'witness': 'unsound-under-partial-assignment'})
+        yield ('circuit-unchanged', z3.BoolVal(not [e for e in st['h'].events if e[0] in ('gate-write', 'gate-del')]))
